@@ -628,13 +628,18 @@ Definition slices_exact (vr : variant) (c : case) : bool :=
   | _ => true
   end.
 Definition bit (b : bool) (w : N) : N := if b then w else 0%N.
-Definition case_labels (c : case) : N :=
+Definition case_labels_with (vr : variant) (c : case) : N :=
   let p := case_pred c in
-  (bit (check_case c) 1
-   + bit (negb (safe_with current true false false p)) 2          (* inverted NamedQuery in a name merge *)
-   + bit (negb (safe_with current false true false p)) 4          (* Or-merge over different tables *)
-   + bit (has_not_junction current p) 8                           (* ~ of a junction *)
-   + bit (negb (safe_with current false false true p)) 16         (* ~ of an info test *)
-   + bit (match compile current p with Err EAssertion => true | _ => false end) 32
-   + bit (model_exact current c) 64
-   + bit (slices_exact current c) 128)%N.
+  (bit (check_case_with vr c) 1
+   + bit (negb (safe_with vr true false false p)) 2          (* inverted NamedQuery in a name merge *)
+   + bit (negb (safe_with vr false true false p)) 4          (* Or-merge over different tables *)
+   + bit (has_not_junction vr p) 8                           (* ~ of a junction *)
+   + bit (negb (safe_with vr false false true p)) 16         (* ~ of an info test *)
+   + bit (match compile vr p with Err EAssertion => true | _ => false end) 32
+   + bit (model_exact vr c) 64
+   + bit (slices_exact vr c) 128)%N.
+Definition case_labels := case_labels_with current.
+(* variants used when a proposed repair is tried on a scratch copy (VERIF_C10_VARIANT) *)
+Definition case_labels_repaired := case_labels_with repaired.
+Definition case_labels_inv := case_labels_with (mkVariant true false).
+Definition case_labels_slice := case_labels_with (mkVariant false true).
